@@ -29,7 +29,8 @@ CHECKS = {
             "the canonical set) and NativeOK (agreement with the plain integer statements), and every explored transition is replayed "
             "on the real Uint (spec -> implementation); TLC -simulate histories at non-aligned real widths are stepped through the real "
             "register file and compared after every step; in the other direction histories drawn by the executor's own driver are "
-            "validated step by step against the machine (spec/MachineTrace.tla, mismatch-tolerant); comparison/hash events, five generator integrations, rejecting constructors "
+            "validated step by step against the machine (spec/MachineTrace.tla, mismatch-tolerant); comparison/hash events, five generator integrations (plus the rand-0.8 inherent methods, which exist only in a build "
+            "without the feature rand-09 and are observed through a second crate built with the feature rand alone), rejecting constructors "
             "and compiled probe programs for ill-formed (BITS, LIMBS) pairs are validated by trace validation."),
     "C05": ("spec/UintBits.tla CheckShift/CheckShiftU", "Every recorded shift, rotation and arithmetic shift (methods, 80 typed "
             "operator overload forms, Uint-typed amounts of any magnitude) is validated by TLC against value*2^s mod 2^BITS, "
@@ -145,6 +146,8 @@ def main():
              "kind_free_text": "design-level TLA+ models of the limb algorithms with the limb width as a constant (Knuth, MG10, Div, Redc, LimbShift, AddMul, InvRing, Lehmer, Pow, Root, Log, BaseConv, Fmt, Float), model-checked exhaustively by ./check --setup; they never change a check's exit code"},
             {"name": "tlc-mc", "path": "spec/MC_BigNat.tla", "serves_properties": sorted(CHECKS),
              "kind_free_text": "TLC model checking of the specification's own arithmetic against native integers"},
+            {"name": "tlc-mc-oracles", "path": "spec/MC_Codecs.tla", "serves_properties": ["C09", "C16", "C17"],
+             "kind_free_text": "TLC model checking of the oracles' self-consistency, no implementation in the loop: spec/MC_Codecs.tla (every encoder against its denotation for all values of small widths; generative against analytic acceptance for all short byte strings) and spec/MC_Text.tla (formatter output against the parser contracts and native digits); run by ./check --setup"},
         ],
         "checks": checks,
         "not_applicable": [{"property_id": k, "reason": v} for k, v in sorted(PENDING.items()) if k not in CHECKS],
